@@ -124,11 +124,17 @@ func gCmd() *rapid.Generator[ev.B] {
 func gPMut() *rapid.Generator[pMut] {
 	boundary := []uint64{0, 1, 63, 64, 65, 0xFC, 0xFD, 0xFE, 0xFF, 0xFFFF, 0x10000, 0xFFFFFFFF, 1 << 32, 1<<63 - 1, 1 << 63, 1<<63 + 1, 1<<64 - 1}
 	return rapid.Custom(func(t *rapid.T) pMut {
-		k := rapid.SampledFrom([]string{"set", "u64", "u64", "u32", "u32", "u16", "varp", "varp", "varp", "cut", "ins", "app"}).Draw(t, "mut")
-		m := pMut{K: k}
-		m.Off = rapid.OneOf(rapid.Just(0), rapid.Just(1), rapid.IntRange(0, 1<<16)).Draw(t, "off")
-		m.Mark = rapid.Bool().Draw(t, "atmark")
-		switch k {
+		m := pMut{}
+		// two thirds of the mutations aim at a count / length field of the original payload
+		m.Mark = rapid.IntRange(0, 2).Draw(t, "atmark") > 0
+		if m.Mark {
+			m.K = rapid.SampledFrom([]string{"varp", "varp", "varp", "u64", "u32", "u16", "set"}).Draw(t, "mut")
+			m.Off = rapid.IntRange(0, 23).Draw(t, "markidx")
+		} else {
+			m.K = rapid.SampledFrom([]string{"set", "u64", "u32", "u16", "varp", "cut", "cut", "ins", "app"}).Draw(t, "mut")
+			m.Off = rapid.OneOf(rapid.Just(0), rapid.Just(1), rapid.IntRange(0, 1<<16)).Draw(t, "off")
+		}
+		switch m.K {
 		case "set":
 			m.V = uint64(rapid.Byte().Draw(t, "val"))
 		case "u64", "u32", "u16", "varp":
@@ -141,8 +147,9 @@ func gPMut() *rapid.Generator[pMut] {
 }
 
 func genC05(t *rapid.T) c05Case {
-	mode := rapid.SampledFrom([]string{"roundtrip", "roundtrip", "roundtrip", "roundtrip", "roundtrip", "roundtrip", "roundtrip",
-		"hdr", "hdr", "hdr", "hdr", "payload", "payload", "payload", "payload", "stream", "stream", "stream", "sweep", "sweep"}).Draw(t, "mode")
+	// (rapid favours the first entries)
+	mode := rapid.SampledFrom([]string{"payload", "payload", "payload", "payload", "payload", "hdr", "hdr", "hdr", "hdr", "sweep", "sweep",
+		"roundtrip", "roundtrip", "roundtrip", "roundtrip", "roundtrip", "roundtrip", "stream", "stream", "stream"}).Draw(t, "mode")
 	c := c05Case{Mode: mode, Magic: gMagic().Draw(t, "magic")}
 	switch mode {
 	case "roundtrip":
